@@ -279,6 +279,23 @@ def judge(schema, res):
         want = {"__typename": schema.query_type.name}
         if result.errors or result.data != want:
             return ("request_on_valid_schema", f"data={result.data!r} errors={result.errors!r}, want data {want}")
+    # schemas derived from an already validated schema (copy through to_kwargs, lexicographic sort) get the same verdict
+    from graphql import GraphQLSchema
+    from graphql.utilities import lexicographic_sort_schema
+
+    for how, derive in (("to_kwargs", lambda s: GraphQLSchema(**s.to_kwargs())), ("sorted", lexicographic_sort_schema)):
+        res.evaluations += 1
+        res.executions += 1
+        try:
+            derived = derive(schema)
+            derrs = validate_schema(derived)
+        except Exception as e:  # noqa: BLE001
+            if errs:
+                continue  # an invalid schema may legitimately refuse to be copied / sorted
+            return (f"derived_schema_raises:{how}:{type(e).__name__}", f"{how}: {type(e).__name__}: {e}")
+        if bool(derrs) != bool(errs):
+            return (f"derived_schema_verdict_differs:{how}",
+                    f"schema errors {messages[:2]} but the schema derived via {how} after validation reports {[e.message for e in derrs][:2]}")
     return None
 
 
